@@ -42,7 +42,7 @@ def _complete_lines(path):
 def ring1(ctx, b):
     prog = build.compile_prog("sched", "pool_drv", ["pool_drv.c", "vs_sched.c"], extra_flags=["-I", os.path.join(build.REPO, "mtbl")])
     wd = ctx.sub("ring1")
-    runs = 300 if ctx.quick() else 1500
+    runs = 150 if ctx.quick() else 1500
     n = 0
     base = [(P, J, NC, ordered, mode, npre, sp, None)
             for (P, J, NC) in [(1, 3, 1), (2, 3, 1), (2, 4, 1), (3, 5, 1), (1, 2, 2), (2, 3, 2)] + ([] if ctx.quick() else [(3, 6, 2), (4, 8, 1), (2, 0, 1)])
@@ -54,42 +54,65 @@ def ring1(ctx, b):
              for (P, J, NC) in [(2, 2, 2), (2, 3, 3)] + ([] if ctx.quick() else [(2, 3, 2), (3, 3, 3), (2, 2, 3)])
              for ordered in (1, 0, 2)
              for (mode, npre) in [(0, 0), (1, 3)]]
-    if True:
-        if True:
-            for (P, J, NC, ordered, mode, npre, sp, fconc) in base:
-                out = os.path.join(wd, "p%d.ndjson" % n)
-                seed0 = ctx.seed % 100000 + n * 7919
-                conc = fconc if fconc is not None else (1 if (NC > 1 and n % 2 == 1) else 0)        # every client with a caller thread of its own / one caller thread
-                if fconc:
-                    runs = 500 if ctx.quick() else 1200
-                p = subprocess.run([prog, out, str(P), str(J), str(ordered), str(NC), str(runs), str(seed0), str(sp), str(mode), str(npre), str(conc)],
-                                   stdout=subprocess.PIPE, stderr=subprocess.PIPE, text=True, timeout=600)
-                ctx.add("schedules", runs)
-                ctx.add("pool_configs", 1)
-                _complete_lines(out)
-                ok, depth, r = core.validate_trace(out, "Trace_Pool", timeout=900)
-                ctx.add("trace_events", sum(1 for _ in open(out)))
-                cfgd = {"max": P, "jobs": J, "clients": NC, "ordered": ["no", "yes", "client 1 only"][ordered], "mode": mode, "npreempt": npre, "spurious_pct": sp, "seed0": seed0, "caller_threads": NC if conc else 1}
-                if n == 0:
-                    ctx.sample({"ring": 1, "cfg": cfgd, "events": [json.loads(x) for x in open(out).readlines()[:12]]})
-                if p.returncode != 0 or not ok:
-                    recs = [json.loads(x) for x in open(out)]
-                    ex = core.split_execs(recs)
-                    last = ex[-1] if ex else []
-                    why = "scheduler verdict: deadlock (no thread enabled)" if p.returncode == 3 else ("pool run ended with status %s: %s" % (p.returncode, p.stderr[-300:]) if p.returncode != 0 else "events not explained by PoolAbs at line %s" % depth)
-                    if p.returncode == 0 and not ok:
-                        # locate failing execution
-                        acc = 0
-                        for e in ex:
-                            if acc + len(e) >= depth:
-                                last = e
-                                break
-                            acc += len(e)
-                    core.report(ctx, "thread pool %s: %s" % (json.dumps(cfgd), why), {"kind": "trace", "module": "Trace_Pool", "trace": last, "line": len(last), "cfg": cfgd, "stderr": p.stderr[-1500:]})
-                else:
-                    ctx.add("traces_validated_against_impl", runs)
-                n += 1
-                os.unlink(out)
+    # phase 1: run every configuration; phase 2: one TLC run over all logs (an execution starts with its own Cfg event), the
+    # rejected line is mapped back to its configuration
+    done = []            # (cfgd, out, nlines, returncode, stderr, runs)
+    for (P, J, NC, ordered, mode, npre, sp, fconc) in base:
+        out = os.path.join(wd, "p%d.ndjson" % n)
+        seed0 = ctx.seed % 100000 + n * 7919
+        conc = fconc if fconc is not None else (1 if (NC > 1 and n % 2 == 1) else 0)        # every client with a caller thread of its own / one caller thread
+        nr = (300 if ctx.quick() else 1200) if fconc else runs
+        p = subprocess.run([prog, out, str(P), str(J), str(ordered), str(NC), str(nr), str(seed0), str(sp), str(mode), str(npre), str(conc)],
+                           stdout=subprocess.PIPE, stderr=subprocess.PIPE, text=True, timeout=600)
+        ctx.add("schedules", nr)
+        ctx.add("pool_configs", 1)
+        _complete_lines(out)
+        cfgd = {"max": P, "jobs": J, "clients": NC, "ordered": ["no", "yes", "client 1 only"][ordered], "mode": mode, "npreempt": npre, "spurious_pct": sp, "seed0": seed0, "caller_threads": NC if conc else 1}
+        if n == 0:
+            ctx.sample({"ring": 1, "cfg": cfgd, "events": [json.loads(x) for x in open(out).readlines()[:12]]})
+        done.append((cfgd, out, sum(1 for _ in open(out)), p.returncode, p.stderr, nr))
+        n += 1
+
+    def complain(cfgd, out, why, depth=None):
+        recs = [json.loads(x) for x in open(out)]
+        ex = core.split_execs(recs)
+        last = ex[-1] if ex else []
+        if depth is not None:
+            acc = 0
+            for e in ex:
+                if acc + len(e) >= depth:
+                    last = e
+                    break
+                acc += len(e)
+        core.report(ctx, "thread pool %s: %s" % (json.dumps(cfgd), why), {"kind": "trace", "module": "Trace_Pool", "trace": last, "line": len(last), "cfg": cfgd})
+
+    for (cfgd, out, nl, rc, err, nr) in done:
+        if rc != 0:
+            complain(cfgd, out, "scheduler verdict: deadlock (no thread enabled)" if rc == 3 else "pool run ended with status %s: %s" % (rc, err[-300:]))
+    good = [d for d in done if d[3] == 0]
+    while good:
+        allp = os.path.join(wd, "all.ndjson")
+        with open(allp, "w") as f:
+            for d in good:
+                f.write(open(d[1]).read())
+        ok, depth, r = core.validate_trace(allp, "Trace_Pool", timeout=1800)
+        ctx.add("trace_events", sum(d[2] for d in good))
+        if ok:
+            ctx.add("traces_validated_against_impl", sum(d[5] for d in good))
+            break
+        acc = 0
+        for k, d in enumerate(good):
+            if acc + d[2] >= (depth or 1):
+                complain(d[0], d[1], "events not explained by PoolAbs at line %s" % ((depth or 1) - acc), (depth or 1) - acc)
+                ctx.add("traces_validated_against_impl", sum(x[5] for x in good[:k]))
+                good = good[k + 1:]          # the configurations behind the rejected one are judged in another run
+                break
+            acc += d[2]
+        else:
+            break
+    for d in done:
+        if os.path.exists(d[1]):
+            os.unlink(d[1])
 
 
 def ring1_wide(ctx, b):
@@ -141,9 +164,9 @@ def ring1_systematic(ctx, b):
     """every schedule with at most `bound` preemptions (under three fixed policies for the choices at blocking points)"""
     prog = build.compile_prog("sched", "pool_drv", ["pool_drv.c", "vs_sched.c"], extra_flags=["-I", os.path.join(build.REPO, "mtbl")])
     wd = ctx.sub("ring1s")
-    plan = [(1, 2, 1, 1, 2), (2, 2, 1, 1, 2), (2, 2, 0, 1, 2), (2, 3, 1, 1, 1), (2, 3, 0, 1, 1), (1, 2, 1, 2, 1), (2, 2, 0, 2, 1), (1, 2, 2, 2, 1), (2, 2, 2, 2, 1)]
+    plan = [(1, 2, 1, 1, 2), (2, 2, 0, 1, 2), (2, 3, 1, 1, 1), (2, 3, 0, 1, 1), (1, 2, 1, 2, 1), (2, 2, 0, 2, 1), (2, 2, 2, 2, 1)]
     if not ctx.quick():
-        plan += [(2, 3, 1, 1, 2), (2, 3, 0, 1, 2), (3, 3, 0, 1, 2), (2, 2, 1, 2, 2), (3, 4, 1, 1, 1)]
+        plan += [(2, 2, 1, 1, 2), (1, 2, 2, 2, 1), (2, 3, 1, 1, 2), (2, 3, 0, 1, 2), (3, 3, 0, 1, 2), (2, 2, 1, 2, 2), (3, 4, 1, 1, 1)]
     for n, (P, J, ordered, NC, bound) in enumerate(plan):
         out = os.path.join(wd, "s%d.ndjson" % n)
         conc = 1 if (NC > 1 and n % 2 == 1) else 0
@@ -304,7 +327,7 @@ def ring1_steps(ctx, b):
     model no longer describes the code (model_drift, reported in the evidence; the verdicts rest on PoolAbs)."""
     prog = build.compile_prog("sched", "pool_drv", ["pool_drv.c", "vs_sched.c"], extra_flags=["-I", os.path.join(build.REPO, "mtbl")])
     wd = ctx.sub("steps")
-    runs = 40 if ctx.quick() else 250
+    runs = 25 if ctx.quick() else 250
     n = 0
     for (P, J) in [(1, 2), (2, 3), (3, 4)] + ([] if ctx.quick() else [(2, 6), (4, 5), (1, 0)]):
         for ordered in (1, 0):
@@ -362,7 +385,7 @@ def ring2(ctx, b):
     wd = ctx.sub("ring2")
     plain = build.build("asan")
     comps = ["zlib", "none"] if ctx.quick() else gen.COMPS
-    nsched = 60 if ctx.quick() else 130
+    nsched = 30 if ctx.quick() else 130
     recs = []
     for comp in comps:
         vg = gen.VGen(31000)
@@ -514,7 +537,7 @@ def ring3(ctx, b):
     """pooled sorters under the scheduler, judged by the abstract sorter (Trace_Mtbl)"""
     rng = ctx.rng
     wd = ctx.sub("ring3")
-    nsched = 40 if ctx.quick() else 300
+    nsched = 25 if ctx.quick() else 300
     for P in (1, 2, 3):
         lines = []
         for k in range(nsched):
